@@ -112,9 +112,48 @@ def gen(rng, k):
     return L
 
 
+def gen_drain(rng, k):
+    """one sender, one receiver that re-arms its receive from the completion
+    handler (its queue is always drained), bursts of datagrams spaced in time
+    over unbounded links: nothing may be lost, however the datagrams compare
+    to the receive buffers (truncated reads must release the whole datagram)."""
+    net = Net(rng, nnodes=2, cap=0, bw=rng.choice([0, 50000000]), lat=rng.choice([0, 1000000]))
+    L = list(net.lines)
+    size = rng.choice([1400, 1400, 1000, 100, 1472])
+    buf = rng.choice([10, 10, 1, 100, 2000])
+    bursts = rng.choice([20, 20, 24, 3])
+    per = rng.choice([10, 10, 12])
+    ops = ["udp_new 1 1", "udp_open 1 1", "udp_bind 1 0 0 5000", "udp_new 2 2", "udp_open 2 1", "udp_bind 2 0 0 6000"]
+    style = rng.choice(["arecv", "arecv_from", "wait"])
+    if style == "wait":
+        ops.append("udp_wait 1 60")
+        H = {60: ["udp_recvfrom 1 : %d" % buf, "udp_wait 1 60"]}
+    else:
+        ops.append("udp_arecv 1 %d 60 : %d" % (1 if style == "arecv_from" else 0, buf))
+        H = {60: ["udp_arecv 1 %d 60 : %d" % (1 if style == "arecv_from" else 0, buf)]}
+    H[50] = ["udp_send 2 0 %d 5000 : %d %d" % (net.ip(1)[1], rng.randrange(1000), size)] * per
+    t = 0
+    for b in range(bursts):
+        t += rng.choice([20000000, 50000000])
+        ops.append("expires_at %d %d" % (10 + b, t))
+        ops.append("async_wait %d 50" % (10 + b))
+    if rng.random() < 0.3:
+        # the accounting must also survive close()/open()
+        ops.append("expires_at 5 %d" % (t // 2 + 1))
+        ops.append("async_wait 5 70")
+        # (the aborted completion re-arms the receive itself)
+        H[70] = ["udp_close 1", "udp_open 1 1", "udp_bind 1 0 0 5000"]
+    L += ["M " + o for o in ops]
+    for h in sorted(H):
+        L += ["H %d %s" % (h, o) for o in H[h]]
+    L.append("M run")
+    return L
+
+
 def generate(rng, tier):
     n = 150 if tier == "quick" else 4000
-    return [("u%d" % k, gen(rng, k)) for k in range(n)]
+    nd = 12 if tier == "quick" else 200
+    return [("u%d" % k, gen(rng, k)) for k in range(n)] + [("dr%d" % k, gen_drain(rng, k)) for k in range(nd)]
 
 
 def oracle(lines, trace):
@@ -123,6 +162,18 @@ def oracle(lines, trace):
         return [("c08/crash", bad)]
     fails = []
     ev = parse_trace(trace)
+    if any(l.startswith("H 50 udp_send 2 ") for l in lines) and any(l.startswith("H 60 ") for l in lines):
+        # drained-reader scenario: every accepted datagram must be delivered
+        tcl = [t for (t, tag, f) in ev if tag == 1 and f[0] == 70]
+        t0 = tcl[0] if tcl else -1          # only datagrams sent after the receiver re-opened must all arrive
+        sent = sum(1 for (t, tag, f) in ev if tag == 4 and f[0] == 2 and f[2] == 0 and t > t0)
+        waitstyle = any(l.startswith("H 60 udp_recvfrom") for l in lines)
+        if waitstyle:
+            got = sum(1 for (t, tag, f) in ev if tag == 4 and f[0] == 3 and f[2] == 0 and t > t0)
+        else:
+            got = sum(1 for (t, tag, f) in ev if tag == 1 and f[0] == 60 and len(f) >= 5 and f[1] == 0 and t > t0)
+        if got < sent:
+            fails.append(("c08/drained-loss", "%d datagrams were accepted by send_to over unbounded links%s but a reader that always drains its queue received only %d of them" % (sent, " after the receiver was re-opened" if tcl else "", got)))
     # what was sent: (payload digest, len) of every accepted send, in order, with return codes
     sends = []
     for l in lines:
